@@ -1,1 +1,221 @@
-"""placeholder"""
+"""C10 - frame views never stale, never aliased: per-accessor invariants of frame.py (necessary structural conditions)."""
+
+from __future__ import annotations
+
+import ast
+import re
+
+from . import rule
+from ..model import Unresolved, walk_scope, parent, enclosing_function, qualname, Module
+from ..paths import U, Path, Evaluator
+from .. import q
+
+FR = 'openfilter/filter_runtime/frame.py'
+CACHES = ('_Frame__ro_rgb', '_Frame__ro_bgr', '_Frame__ro_gray', '_Frame__jpg')
+OWN_IMAGE = ('self.image', 'self._Frame__image')
+
+
+def accessor(repo, name):
+    return repo.find(f'{FR}::Frame.{name}')
+
+
+def acc_paths(repo, name):
+    cache = repo.__dict__.setdefault('_c10', {})
+    if name not in cache:
+        mod, fn = accessor(repo, name)
+        cls = repo.find(f'{FR}::Frame')[1]
+        ev = Evaluator(repo, mod, cls_ctx=cls)
+        ev.scope_node = fn
+        cache[name] = (mod, fn, ev.run(fn.body))
+    return cache[name]
+
+
+def writable_fact(pc):
+    """truthiness of `<own image>.flags.writeable` in a path-condition prefix: True / False / None; the jpg-only
+    marker (image is False) counts as not writable."""
+    res = None
+    for k, v in pc:
+        for img in OWN_IMAGE:
+            if k == f'truthy({img}.flags.writeable)':
+                res = v
+            if k in (f'is(False, {img})', f'is({img}, False)') and v is True:
+                res = False
+    return res
+
+
+@rule('C10.R1', 'cache stores need an immutable source: every store of a derived view / encoding into __ro_rgb, __ro_bgr, __ro_gray, __jpg '
+                'happens only where the frame\'s own image is known read-only')
+def r1(rr, repo):
+    sites = set()
+    for name in ('rgb', 'bgr', 'gray', 'jpg', 'ro_rgb', 'ro_bgr'):
+        mod, fn, paths = acc_paths(repo, name)
+        rr.paths += len(paths)
+        for p in paths:
+            for e in p.events:
+                if e.kind == 'store' and e.term.startswith('self.') and e.term[5:] in CACHES:
+                    sites.add((name, e.term))
+                    w = writable_fact(p.pc[:e.pc_len])
+                    rr.ob(f'Frame.{name}: the cache {e.term[12:]} is filled only from an image that can no longer change (not image.flags.writeable)',
+                          w is False, mod, e.node, witness=p.pc_text(e.pc_len) or 'unconditional', key=f'cache|{name}|{e.term}|writable={w}')
+    rr.floor('cache-filling accessors', len(sites), 6)
+    # no other function of the module fills the caches from pixels
+    mod = repo.module(FR)
+    for attr in ('__ro_rgb', '__ro_bgr', '__ro_gray'):
+        for st, tgt in q.stores_to_attr(mod.tree, attr):
+            fn = enclosing_function(st)
+            rr.ob(f'{attr} is written only by its accessors', fn is not None and fn.name in ('rgb', 'bgr', 'gray', 'ro_rgb', 'ro_bgr'), mod, st, key=f'cache-writer|{attr}|{qualname(st)}')
+
+
+@rule('C10.R2', 'a JPEG is attached only to pixels that can no longer change: eager decode in from_blob and lazy decode in .image freeze the array')
+def r2(rr, repo):
+    mod, fn, paths = acc_paths(repo, 'from_blob')
+    rr.paths += len(paths)
+    n = 0
+    for p in paths:
+        isjpg = [v for k, v in p.pc if k.startswith('eq(') and "b'\\xff\\xd8'" in k]
+        dec = [e for e in p.events if e.kind == 'store' and e.term.endswith('._Frame__image') and 'decode(' in e.args[0]]
+        if dec and isjpg and isjpg[0] is True:
+            n += 1
+            fz = [e for e in p.events if e.kind == 'store' and e.term.endswith('.flags.writeable') and e.args[0] == 'False' and e.term.startswith(dec[0].args[0])]
+            rr.ob('from_blob: an eagerly decoded image that keeps its jpg is made read-only', bool(fz), mod, dec[0].node, witness=p.pc_text(), key='from_blob-freeze')
+        jst = [e for e in p.events if e.kind == 'store' and e.term.endswith('._Frame__jpg')]
+        for e in jst:
+            v = e.value
+            if isinstance(v, ast.IfExp):
+                ok = "b'\\xff\\xd8'" in U(v.test) and isinstance(v.orelse, ast.Constant) and v.orelse.value is False
+                rr.ob('from_blob: the blob is kept as the jpg cache only if it starts with the JPEG magic, else False', ok, mod, e.node, witness=U(v), key='from_blob-nonjpg')
+            elif isjpg and isjpg[0] is False:
+                rr.ob('from_blob: a blob that is not a jpg is not kept as the jpg cache', e.args[0] == 'False', mod, e.node, witness=e.args[0], key='from_blob-nonjpg')
+    rr.floor('eager-decode paths of from_blob that keep the jpg', n, 1, mod, fn)
+    mod, fn, paths = acc_paths(repo, 'image')
+    rr.paths += len(paths)
+    k = 0
+    for p in paths:
+        lazy = p.facts.get('is(False, self._Frame__image)')
+        if lazy is True:
+            k += 1
+            fz = [e for e in p.events if e.kind == 'store' and e.term.endswith('.flags.writeable') and e.args[0] == 'False']
+            st = [e for e in p.events if e.kind == 'store' and e.term == 'self._Frame__image']
+            rr.ob('.image: the lazily decoded array is stored and frozen before it is returned', bool(fz) and bool(st), mod, fn, witness=p.pc_text(), key='image-freeze')
+    rr.floor('lazy-decode paths of .image', k, 1, mod, fn)
+
+
+def frame_constructions(p: Path):
+    return [e for e in p.events if e.kind == 'call' and e.term == 'Frame' and len(e.args) >= 2 and e.args[1] == 'self']
+
+
+def fresh_root(arg: str) -> bool:
+    return arg.endswith('.copy()') or arg.startswith('cv2.cvtColor(')
+
+
+@rule('C10.R3', 'promised copies are fresh: in rw, ro, rw_rgb, rw_bgr, ro_rgb, ro_bgr every Frame(x, self, ...) returned instead of self has x rooted in .copy() or cv2.cvtColor(...)')
+def r3(rr, repo):
+    nodes = set()
+    for name in ('rw', 'ro', 'rw_rgb', 'rw_bgr', 'ro_rgb', 'ro_bgr'):
+        mod, fn, paths = acc_paths(repo, name)
+        rr.paths += len(paths)
+        for p in paths:
+            for e in frame_constructions(p):
+                nodes.add(id(e.node))
+                rr.ob(f'Frame.{name}: the new Frame is built on a fresh array (copy / colour conversion), never on the source array or a view of it',
+                      fresh_root(e.args[0]), mod, e.node, witness=e.args[0][:120], key=f'fresh|{name}|{e.raw[:80]}')
+            # what is returned is self, a cached frame, or one of the new frames
+            o = p.outcome
+            if o and o[0] == 'return' and o[1] is not None:
+                t = U(o[1])
+                ok = t == 'self' or t.startswith('Frame(') or t.startswith('getattr(self,')
+                rr.ob(f'Frame.{name} returns self, a cached view or a newly built Frame', ok, mod, fn, witness=t[:120], key=f'ret|{name}|{t[:40]}')
+    rr.floor('Frame(x, self, ...) constructions in the copying accessors', len(nodes), 10)
+
+
+_CONTROL = "def f(a):\n    a.flags.writeable = True\n    a.setflags(write=True)\n    a.flags.writeable = False\n"
+
+
+def writeable_lifts(tree):
+    out = []
+    for n in ast.walk(tree):
+        if isinstance(n, ast.Assign):
+            for t in n.targets:
+                if isinstance(t, ast.Attribute) and t.attr == 'writeable' and not (isinstance(n.value, ast.Constant) and n.value.value is False):
+                    out.append(n)
+        elif isinstance(n, ast.Call) and isinstance(n.func, ast.Attribute) and n.func.attr == 'setflags':
+            w = q.kwarg(n, 'write')
+            if w is None and n.args:
+                w = n.args[0]
+            if w is not None and not (isinstance(w, ast.Constant) and not w.value):
+                out.append(n)
+    return out
+
+
+@rule('C10.R4', 'read-only is never lifted in place: no `x.flags.writeable = <not False>` / setflags(write=True) anywhere, except Frame.unreduce restoring a pickled flag on its private array')
+def r4(rr, repo):
+    rr.ob('positive control: the detector finds both lifting forms in the embedded example', len(writeable_lifts(ast.parse(_CONTROL))) == 2, key='control')
+    n = 0
+    for mod in repo.modules.values():
+        n += 1
+        for st in writeable_lifts(mod.tree):
+            fn = enclosing_function(st)
+            if mod.relpath == FR and fn is not None and fn.name == 'unreduce':
+                rr.holds('Frame.unreduce restores the pickled writability of a freshly unpickled private array (whitelisted by name)', mod, st, key='unreduce')
+            else:
+                rr.violated('a numpy array is made writable in place', mod, st, key=f'lift|{mod.relpath}|{qualname(st)}')
+    rr.floor('modules scanned', n, 30)
+
+
+@rule('C10.R5', 'converted / copied read-only views are frozen before they are returned or cached')
+def r5(rr, repo):
+    n = 0
+    for name in ('rgb', 'bgr', 'gray', 'ro', 'ro_rgb', 'ro_bgr'):
+        mod, fn, paths = acc_paths(repo, name)
+        for p in paths:
+            cons = frame_constructions(p)
+            if not cons:
+                continue
+            ro_promised = name.startswith('ro') or writable_fact(p.pc) is False
+            if not ro_promised:
+                continue
+            n += 1
+            e = cons[-1]
+            fz = [s for s in p.events if s.kind == 'store' and s.term == f'{e.args[0]}.flags.writeable' and s.args[0] == 'False']
+            rr.ob(f'Frame.{name}: the array of the new read-only view is frozen (flags.writeable = False) on this path', bool(fz), mod, e.node,
+                  witness=p.pc_text() or 'unconditional', key=f'freeze|{name}|{e.raw[:60]}')
+    rr.floor('paths building a read-only view', n, 6)
+
+
+@rule('C10.R6', 'conversion table: RGB<->BGR is a pure channel swap, gray uses the code of the source format, the label matches the accessor, copy() duplicates pixels iff writable')
+def r6(rr, repo):
+    n = 0
+    for name, fmt in (('rgb', 'RGB'), ('bgr', 'BGR'), ('rw_rgb', 'RGB'), ('rw_bgr', 'BGR'), ('ro_rgb', 'RGB'), ('ro_bgr', 'BGR'), ('gray', 'GRAY')):
+        mod, fn, paths = acc_paths(repo, name)
+        for p in paths:
+            for e in frame_constructions(p):
+                n += 1
+                lab = e.args[2] if len(e.args) > 2 else None
+                rr.ob(f'Frame.{name}: the new frame is labelled {fmt!r}', lab is not None and lab.strip('\'"') == fmt, mod, e.node, witness=str(lab), key=f'label|{name}|{lab}')
+                m = re.match(r'cv2\.cvtColor\((.*), (cv2\.COLOR_\w+|cv2\.COLOR_\w+ if .* else cv2\.COLOR_\w+)\)$', e.args[0], re.S)
+                if e.args[0].startswith('cv2.cvtColor('):
+                    if not m:
+                        rr.unresolved('conversion code not recognised', mod, e.node, witness=e.args[0][:160], key=f'code-shape|{name}')
+                        continue
+                    code = m.group(2)
+                    if fmt in ('RGB', 'BGR'):
+                        rr.ob('RGB<->BGR conversion uses a pure channel-swap code', code in ('cv2.COLOR_RGB2BGR', 'cv2.COLOR_BGR2RGB'), mod, e.node, witness=code, key=f'code|{name}|{code}')
+                    else:
+                        ok = bool(re.fullmatch(r"cv2\.COLOR_RGB2GRAY if self\._Frame__shapef\[1\] == 'RGB' else cv2\.COLOR_BGR2GRAY", code)) or \
+                            bool(re.fullmatch(r"cv2\.COLOR_BGR2GRAY if self\._Frame__shapef\[1\] == 'BGR' else cv2\.COLOR_RGB2GRAY", code))
+                        rr.ob("gray picks COLOR_RGB2GRAY iff the source format is 'RGB' (else COLOR_BGR2GRAY)", ok, mod, e.node, witness=code, key=f'code|gray|{code[:60]}')
+                    src = m.group(1)
+                    rr.ob('the conversion reads the frame\'s own image', src in OWN_IMAGE, mod, e.node, witness=src, key=f'src|{name}|{src}')
+    rr.floor('labelled constructions', n, 8)
+    mod, fn, paths = acc_paths(repo, 'copy')
+    k = 0
+    for p in paths:
+        st = [e for e in p.events if e.kind == 'store' and e.term.endswith('._Frame__image')]
+        wr = p.facts.get('truthy(self._Frame__image.flags.writeable)')
+        isarr = p.facts.get('truthy(isinstance(self._Frame__image, ndarray))')
+        if isarr is True and wr is True:
+            k += 1
+            rr.ob('copy(): a writable image is duplicated (image.copy())', bool(st) and st[-1].args[0] == 'self._Frame__image.copy()', mod, fn, witness=p.pc_text(), key='copy-dup')
+        elif st:
+            rr.ob('copy(): a read-only or absent image is shared, not duplicated', False, mod, st[0].node, witness=p.pc_text(), key='copy-nodup')
+    rr.floor('copy() paths with a writable image', k, 1, mod, fn)
